@@ -62,6 +62,20 @@ Theorem C19_model_never_out_of_fuel : forall a b,
 Proof. intros a b. split; [exact (is_subhint_has_fuel a b)|exact (hint_equal_has_fuel a b)]. Qed.
 Print Assumptions C19_model_never_out_of_fuel.
 
+(* ... so reflexivity, stated on the public functions: is_subhint(h, h) answers True or raises
+      (the latter is F25), and TypeHint(h) == TypeHint(h) likewise; nothing else. *)
+Theorem C19_reflexive_true_or_raises : forall h, door_ok h = true ->
+  (is_subhint h h = RT \/ is_subhint h h = RX) /\ (hint_equal h h = RT \/ hint_equal h h = RX).
+Proof.
+  intros h Hok. pose proof (C19_model_never_out_of_fuel h h) as [F1 F2].
+  unfold is_subhint, hint_equal in *.
+  destruct (refl_never_false h (2 * (hsize h + hsize h) + 2) Hok) as [R1 R2].
+  split.
+  - destruct (sub _ h h); [now left|congruence|now right|congruence].
+  - destruct (eqh _ h h); [now left|congruence|now right|congruence].
+Qed.
+Print Assumptions C19_reflexive_true_or_raises.
+
 (* Non-vacuity of (3): list[bool] <= Sequence[int | str] and tuple[bool, str] <= tuple[object-free union, ...]. *)
 Example C19_example :
   simple (HCont s_List (HCls c_bool)) = true
